@@ -82,7 +82,14 @@ void harness(void)
     ls_base = email;
     ls_buflen = len;
 
+#if VF_MODE == 3 && defined(HAVE_IDNKIT)
+    static struct vf_idn_resconf the_ctx = { 1, 1 };
+    eav_result_t *r = FUNC(&the_ctx, IDN_ENCODE_REGIST, email, len, tld_check);
+    VF_ASSERT(ls_count[F_UDOM] == 0 || (ls_udom_ctx == &the_ctx && ls_udom_actions == IDN_ENCODE_REGIST),
+              "C18: the caller's IDN context and actions are handed to the domain validator");
+#else
     eav_result_t *r = FUNC(email, len, tld_check);
+#endif
 
     VF_ASSERT(r != NULL, "a result record is always returned");
     VF_ASSERT(!ls_bad_range, "C06: leaf validators are only given ranges inside the address");
